@@ -327,7 +327,8 @@ def omit_prefix(vrs, prefix):
 
 
 def _omit_prefix(s, prefix):
-    if s.startswith(prefix):
+    # only hidden variables are mangled (`prefix + '_...'`)
+    if s.startswith(prefix + '_'):
         return s.replace(prefix, '', 1)
     return s
 
